@@ -150,7 +150,7 @@ func VerifHarness_C09_DateRoundTripMonotone() {
 }
 
 // C09-B: DateTime + / - calendar and clock units at every precision (no offset): same precision, equals the reference.
-func verifDateTimeAddSub(sub bool) {
+func verifDateTimeAddSub(sub bool, clockUnits bool) {
 	verifSplitYM = true
 	verifrt.SplitCalendar()
 	var dt DateTime
@@ -166,7 +166,11 @@ func verifDateTimeAddSub(sub bool) {
 		dt, c = verifDateTimeL("dt", false, ls[verifrt.Choose("dt.layoutQ", 4)])
 	}
 	units := []string{"year", "years", "month", "months", "week", "weeks", "day", "days", "hour", "hours", "minute", "minutes", "second", "seconds", "millisecond"}
-	ui := verifrt.Choose("unit", len(units))
+	// the calendar units (year .. day) and the clock units (hour .. millisecond) are two harnesses, to share the work
+	ui := verifrt.Choose("unit", 8)
+	if clockUnits {
+		ui = 8 + verifrt.Choose("unit", len(units)-8)
+	}
 	if !verifrt.Thorough() {
 		verifrt.Assume(ui%2 == 0) // quick: singular keywords only (spelling dispatch is C09_UnitDispatch / C09_TimeDuration)
 	}
@@ -232,8 +236,10 @@ func verifDateTimeAddSub(sub bool) {
 	verifrt.Reach("end")
 }
 
-func VerifHarness_C09_DateTimeAdd() { verifDateTimeAddSub(false) }
-func VerifHarness_C09_DateTimeSub() { verifDateTimeAddSub(true) }
+func VerifHarness_C09_DateTimeAdd()           { verifDateTimeAddSub(false, false) }
+func VerifHarness_C09_DateTimeSub()           { verifDateTimeAddSub(true, false) }
+func VerifHarness_C09_DateTimeAddClockUnits() { verifDateTimeAddSub(false, true) }
+func VerifHarness_C09_DateTimeSubClockUnits() { verifDateTimeAddSub(true, true) }
 
 // C09-B2: clock units on DateTimes that carry an offset (whole-hour, half-hour and 45-minute zones): the result keeps
 // layout and offset and equals the instant plus the amount truncated to the value's precision; (x + q) - q = x.
